@@ -11,7 +11,10 @@ the idiom - reads the same construct:
   demand through FuncView.inline / resolve, with dominance checks of their own).
 * `a, b = x, y` with plain-name targets where no later component reads an earlier target: `a = x; b = y`.
 
-Both rewrites preserve the meaning of the function; positions of the moved nodes are kept, so reports still point at the
+* `match subject:` over literal / `|` / wildcard / capture / fixed-length sequence patterns is lowered to the if / elif
+  chain it abbreviates (the CFG and the kind engine know `if`, not `match`); other pattern kinds are left alone.
+
+The rewrites preserve the meaning of the function; positions of the moved nodes are kept, so reports still point at the
 original lines."""
 from __future__ import annotations
 
@@ -270,8 +273,89 @@ def _split_parallel(fn) -> int:
     return done
 
 
+def _lower_match(fn) -> int:
+    """`match subject:` over literal / or / wildcard / capture / fixed-length sequence patterns -> the if / elif chain it
+    abbreviates (the analyses work on if-chains; other pattern kinds are left alone)."""
+    Match = getattr(ast, "Match", None)
+    if Match is None:
+        return 0
+    done = 0
+
+    def cond_and_binds(pat, subj):
+        """(condition expr or None for 'always', [(name, value expr)]) or raise ValueError when not supported"""
+        if isinstance(pat, ast.MatchValue):
+            return ast.Compare(left=subj(), ops=[ast.Eq()], comparators=[pat.value]), []
+        if isinstance(pat, ast.MatchSingleton):
+            return ast.Compare(left=subj(), ops=[ast.Is()], comparators=[ast.Constant(value=pat.value)]), []
+        if isinstance(pat, ast.MatchOr):
+            parts = [cond_and_binds(p_, subj) for p_ in pat.patterns]
+            if any(b for _, b in parts) or any(c is None for c, _ in parts):
+                raise ValueError
+            return ast.BoolOp(op=ast.Or(), values=[c for c, _ in parts]), []
+        if isinstance(pat, ast.MatchAs):
+            if pat.pattern is None:
+                return None, ([(pat.name, subj())] if pat.name else [])
+            c, b = cond_and_binds(pat.pattern, subj)
+            return c, b + ([(pat.name, subj())] if pat.name else [])
+        if isinstance(pat, ast.MatchSequence) and not any(isinstance(p_, ast.MatchStar) for p_ in pat.patterns):
+            n = len(pat.patterns)
+            conds = [ast.Compare(left=ast.Call(func=ast.Name(id="len", ctx=ast.Load()), args=[subj()], keywords=[]), ops=[ast.Eq()], comparators=[ast.Constant(value=n)])]
+            binds = []
+            for k, p_ in enumerate(pat.patterns):
+                sub = lambda k=k: ast.Subscript(value=subj(), slice=ast.Constant(value=k), ctx=ast.Load())
+                c, b = cond_and_binds(p_, sub)
+                if c is not None:
+                    conds.append(c)
+                binds += b
+            return (conds[0] if len(conds) == 1 else ast.BoolOp(op=ast.And(), values=conds)), binds
+        raise ValueError
+
+    for blk in _blocks(fn):
+        i = 0
+        while i < len(blk):
+            st = blk[i]
+            if isinstance(st, Match):
+                pre = []
+                if isinstance(st.subject, (ast.Name, ast.Attribute, ast.Constant)) or (isinstance(st.subject, ast.Subscript) and isinstance(st.subject.value, ast.Name)):
+                    subj_expr = st.subject
+                else:
+                    tmp = f"match_subject_{st.lineno}"
+                    pre = [ast.copy_location(ast.Assign(targets=[ast.Name(id=tmp, ctx=ast.Store())], value=st.subject, lineno=st.lineno), st)]
+                    subj_expr = ast.Name(id=tmp, ctx=ast.Load())
+                import copy as _copy
+
+                subj = lambda: _copy.deepcopy(subj_expr)
+                try:
+                    arms = []
+                    for case in st.cases:
+                        c, b = cond_and_binds(case.pattern, subj)
+                        if case.guard is not None:
+                            if b:
+                                raise ValueError  # a guard that reads the captures: not lowered
+                            c = case.guard if c is None else ast.BoolOp(op=ast.And(), values=[c, case.guard])
+                        body = [ast.copy_location(ast.Assign(targets=[ast.Name(id=nm, ctx=ast.Store())], value=val, lineno=case.body[0].lineno), case.body[0]) for nm, val in b] + list(case.body)
+                        arms.append((c, body))
+                except ValueError:
+                    i += 1
+                    continue
+                chain: List[ast.stmt] = []
+                for c, body in reversed(arms):
+                    if c is None:
+                        chain = body
+                    else:
+                        chain = [ast.copy_location(ast.If(test=c, body=body, orelse=chain), body[0])]
+                blk[i : i + 1] = pre + (chain or [ast.copy_location(ast.Pass(), st)])
+                done += 1
+                continue
+            i += 1
+    return done
+
+
 def canonicalise(tree: ast.Module) -> ast.Module:
     for fn in _functions(tree):
+        for _ in range(3):
+            if not _lower_match(fn):  # (nested match statements: inner ones appear after the outer one was lowered)
+                break
         _split_parallel(fn)
         # folding one flag can make the next one adjacent to its `if`
         for _ in range(4):
